@@ -221,7 +221,9 @@ def main():
             na.append({"property_id": pid, "reason": NOT_YET.get(pid, "check not built yet in this round (work in progress; no technique switch intended)")})
     man = {
         "version": 1,
-        "setup_cmd": "/venv/bin/python -c 'import hypothesis' 2>/dev/null || /venv/bin/pip install --no-index --find-links /opt/veriftools/wheels hypothesis",
+        "setup_cmd": "(/venv/bin/python -c 'import hypothesis' 2>/dev/null || /venv/bin/pip install --no-index --find-links /opt/veriftools/wheels hypothesis) && "
+                     "(PYTHONPATH=.deps /venv/bin/python -c 'import atheris' 2>/dev/null || /venv/bin/pip install -q --no-index --find-links /opt/veriftools/wheels "
+                     "--target .deps atheris || true)",
         "hooks": {
             "guard": "ANNET_VERIF",
             "enable": "no source hooks: annet is pure Python imported in place from /repo by /venv; checks observe public entry points and connectors only",
@@ -230,7 +232,8 @@ def main():
             "add_only": True,
         },
         "engines": [{"name": "vf", "path": "/verif/vf", "serves_properties": sorted(CHECKS),
-                     "kind_free_text": "Hypothesis-driven generated search + exhaustive enumeration against reference models; sharded over 16 spawn processes"}],
+                     "kind_free_text": "Hypothesis-driven generated search + exhaustive enumeration against reference models, sharded over 16 spawn processes; "
+                                       "thorough tier adds coverage-guided atheris/libFuzzer campaigns around the same oracles (vf/core/fuzz_target.py)"}],
         "checks": checks,
         "not_applicable": na,
         "notes": "See DESIGN.md. Known findings: known_findings.json (never written at run time). Seeded breaking changes: seeded/.",
